@@ -1742,9 +1742,13 @@ class Alias(ObjectAliasMixin):
                 resolved.resolve_target()
             except CyclicAliasError as error:
                 raise CyclicAliasError([self.target_path, *error.chain]) from error
+        # When the resolved object is itself an alias, getting its aliases dereferences
+        # its whole chain: do it before storing the link, so that a chain that cannot
+        # be followed down to an object leaves this alias unresolved (all or nothing).
+        target_aliases = resolved.aliases
         self._target = resolved
         if self.parent is not None:
-            self._target.aliases[self.path] = self  # type: ignore[union-attr]
+            target_aliases[self.path] = self
 
     def _update_target_aliases(self) -> None:
         with suppress(AttributeError, AliasResolutionError, CyclicAliasError):
